@@ -61,8 +61,8 @@ ObjLength(lines, obj) == LET ls == ObjLines(lines, obj) IN ls[Len(ls)].end
 
 \* ------------------------------------------------------------------ bounded universe
 CONSTANTS NRandomAsm
-Names == {"a", "c:1-2", "x-y.1", "GAP", "U", "#x"}
-ScNames == {"s1", "chr 2", "N"}
+Names == {"a", "c:1-2", "x-y.1", "GAP", "U", "#x", "\"q", "\"q\"r"}
+ScNames == {"s1", "chr 2", "N", "\"s"}
 Coords == {<<1, 9>>, <<9, 10>>, <<10, 10>>, <<100, 600000000>>}
 TagSets == {<<>>, <<"Painted">>, <<"Painted", "X">>}
 GapTypes == {"scaffold", "contig", "centromere", "short_arm"}
